@@ -28,8 +28,10 @@ CONFIGS = {
     "spec_other_cmd": {"ip": {"EVENT": "1/s", "REQ": "1/s"}, SPEC: {"REQ": "2/s"}},
     "spec_v6": {"ip": {"EVENT": "1/s"}, SPEC6: {"EVENT": "2/s"}},
     "spec_longer_interval": {"ip": {"EVENT": "2/s"}, SPEC: {"EVENT": "2/m"}},
+    "ip_2m": {"ip": {"EVENT": "2/m"}},
 }
 DTS = [0.0, 0.5, 1.0, 1.5, 59.5, 60.5]
+DEEPER = {"ip_2m"}  # small alphabets explored one step deeper (a wiped minute window needs five steps to show)
 UNIT = {"s": 1, "m": 60, "h": 3600}
 
 
@@ -70,8 +72,9 @@ def cases(tier):
     out = []
     depth = 4 if tier == "quick" else 5
     for cfgname in CONFIGS:
+        d = depth + (1 if cfgname in DEEPER else 0)
         for first in alphabet(cfgname, tier):
-            out.append((cfgname, first, depth, tier))
+            out.append((cfgname, first, d, tier))
     return out
 
 
